@@ -6,6 +6,9 @@ import (
 	"errors"
 	"fmt"
 	"math/rand"
+	"net/http"
+	"regexp"
+	"strings"
 	"testing"
 	"testing/synctest"
 
@@ -16,6 +19,9 @@ import (
 	"oras.land/oras-go/v2/content/memory"
 	"oras.land/oras-go/v2/content/oci"
 	"oras.land/oras-go/v2/errdef"
+	"oras.land/oras-go/v2/registry"
+	"oras.land/oras-go/v2/registry/remote"
+	"verif/harness/regfake"
 	"verif/harness/vh"
 )
 
@@ -36,12 +42,16 @@ type Scenario struct {
 	Faults  []Fault       `json:"faults"`
 	Cancel  int           `json:"cancel"`  // cancel the context at this gate step (0: never, -1: before the call)
 	CMode   string        `json:"cmode"`   // "" / "before": before releasing the step's operation; "after": after its effect
-	SrcKind string        `json:"srckind"` // memory (default) | oci
+	SrcKind string        `json:"srckind"` // memory (default) | oci | remote (Referrers API) | remotetag (referrers tag schema)
 	DstKind string        `json:"dstkind"` // memory (default) | oci | file
 	CbErr   []Fault       `json:"cberr"`   // callback errors: op in pre post skipped
 	Prefix  []int         `json:"prefix"`  // schedule: choice per step, then seeded random
 	Seed    int64         `json:"seed"`
 	Choices []int         `json:"choices,omitempty"` // filled after the run: the full schedule taken
+	// extended copy with a filter (C03): "" | "at:<regex>" | "ann:<key>=<regex>" | "annkey:<key>"
+	Filter string `json:"filter,omitempty"`
+	// remote sources: Referrers API page limit of the registry (0: one page)
+	RefPage int `json:"refpage,omitempty"`
 }
 
 var errCallback = errors.New("verif: callback error")
@@ -65,7 +75,7 @@ func RunOne(t *testing.T, sc *Scenario, tr *vh.Tracer) Result {
 	tr.Begin(sc.ID)
 	synctest.Test(t, func(t *testing.T) {
 		bg := context.Background()
-		src, err := newSrc(t, sc.SrcKind)
+		src, err := newSrc(t, sc.SrcKind, sc.RefPage)
 		if err != nil {
 			t.Fatal(err)
 		}
@@ -77,8 +87,10 @@ func RunOne(t *testing.T, sc *Scenario, tr *vh.Tracer) Result {
 				t.Fatalf("scenario %d: src push %d: %v", sc.ID, k, err)
 			}
 		}
-		if err := src.Tag(bg, g.Descs[sc.Root], srcRef); err != nil {
-			t.Fatal(err)
+		if sc.API == "copy" || sc.API == "extcopy" {
+			if err := src.Tag(bg, g.Descs[sc.Root], srcRef); err != nil {
+				t.Fatal(err)
+			}
 		}
 		dstm, err := newDst(t, sc.DstKind)
 		if err != nil {
@@ -92,7 +104,11 @@ func RunOne(t *testing.T, sc *Scenario, tr *vh.Tracer) Result {
 		s := &vh.Sched{}
 		e := &env{g: g, s: s, tr: tr, faults: append([]Fault(nil), sc.Faults...)}
 		cberr := append([]Fault(nil), sc.CbErr...)
-		sw := &srcW{e: e, und: src}
+		sw0 := &srcW{e: e, und: src}
+		var sw oras.ReadOnlyGraphTarget = sw0
+		if rl, ok := src.(registry.ReferrerLister); ok {
+			sw = &srcRefW{srcW: sw0, rl: rl} // the source lists referrers itself (remote repository)
+		}
 		dw := &dstW{e: e, und: dstm}
 
 		succ := make([][]int, g.N)
@@ -100,6 +116,14 @@ func RunOne(t *testing.T, sc *Scenario, tr *vh.Tracer) Result {
 		kinds := make([]string, g.N)
 		for k := 1; k <= g.N; k++ {
 			succ[k-1], all[k-1], kinds[k-1] = g.SuccNF(k), g.SuccAll(k), g.Nodes[k].Kind
+		}
+		subj := make([]int, g.N)
+		for k := 1; k <= g.N; k++ {
+			for _, ed := range g.Nodes[k].Edges {
+				if ed.Role == "subject" {
+					subj[k-1] = ed.To
+				}
+			}
 		}
 		same := make([][]int, g.N) // nodes with identical bytes (a digest-keyed store cannot tell them apart)
 		for k := 1; k <= g.N; k++ {
@@ -115,7 +139,8 @@ func RunOne(t *testing.T, sc *Scenario, tr *vh.Tracer) Result {
 		tr.Emit(map[string]any{"e": "init", "n": g.N, "succ": succ, "all": all, "kinds": kinds, "same": same, "root": sc.Root,
 			"dst0": dw.has(), "c": sc.C, "api": sc.API, "depth": sc.Depth, "dstref": sc.DstRef,
 			"refdst": sc.RefDst, "maproot": sc.MapRoot, "faults": fl, "cancel": sc.Cancel, "cmode": sc.CMode,
-			"srckind": kindOr(sc.SrcKind), "dstkind": kindOr(sc.DstKind)})
+			"srckind": kindOr(sc.SrcKind), "dstkind": kindOr(sc.DstKind),
+			"filter": sc.Filter, "pass": filterPass(g, sc.Filter), "predsubj": strings.HasPrefix(sc.SrcKind, "remote"), "subj": subj})
 
 		cb := func(kind string) func(context.Context, ocispec.Descriptor) error {
 			return func(_ context.Context, d ocispec.Descriptor) error {
@@ -157,9 +182,11 @@ func RunOne(t *testing.T, sc *Scenario, tr *vh.Tracer) Result {
 				return g.NodeOf(d), err
 			case "extcopygraph":
 				o := oras.ExtendedCopyGraphOptions{CopyGraphOptions: gopts, Depth: sc.Depth}
+				applyFilter(&o, sc.Filter)
 				return sc.Root, oras.ExtendedCopyGraph(ctx, sw, dst, g.Descs[sc.Root], o)
 			case "extcopy":
 				o := oras.ExtendedCopyOptions{ExtendedCopyGraphOptions: oras.ExtendedCopyGraphOptions{CopyGraphOptions: gopts, Depth: sc.Depth}}
+				applyFilter(&o.ExtendedCopyGraphOptions, sc.Filter)
 				d, err := oras.ExtendedCopy(ctx, sw, srcRef, dst, sc.DstRef, o)
 				return g.NodeOf(d), err
 			}
@@ -284,12 +311,86 @@ type srcStore interface {
 	content.TagResolver
 }
 
-func newSrc(t *testing.T, kind string) (srcStore, error) {
+const (
+	regHost = "reg.example"
+	regRepo = "team/app"
+)
+
+func newSrc(t *testing.T, kind string, refPage int) (srcStore, error) {
 	switch kind {
 	case "oci":
 		return oci.New(t.TempDir())
+	case "remote", "remotetag":
+		// a real remote.Repository over the in-process registry; content is pushed through it (so that, without the
+		// Referrers API, the client builds the referrers-tag indexes itself)
+		reg := regfake.New(regHost, regfake.Profile{Referrers: kind == "remote", DigestHdr: true, RefPageLimit: refPage})
+		r, err := remote.NewRepository(regHost + "/" + regRepo)
+		if err != nil {
+			return nil, err
+		}
+		r.PlainHTTP, r.Client = true, &http.Client{Transport: reg}
+		r.SetReferrersCapability(kind == "remote")
+		return r, nil
 	}
 	return memory.New(), nil
+}
+
+// parseFilter splits a Scenario.Filter.
+func parseFilter(f string) (mode, key string, re *regexp.Regexp) {
+	switch {
+	case strings.HasPrefix(f, "at:"):
+		return "at", "", regexp.MustCompile(f[3:])
+	case strings.HasPrefix(f, "annkey:"):
+		return "ann", f[7:], nil
+	case strings.HasPrefix(f, "ann:"):
+		kv := strings.SplitN(f[4:], "=", 2)
+		return "ann", kv[0], regexp.MustCompile(kv[1])
+	}
+	return "", "", nil
+}
+
+func applyFilter(o *oras.ExtendedCopyGraphOptions, f string) {
+	switch mode, key, re := parseFilter(f); mode {
+	case "at":
+		o.FilterArtifactType(re)
+	case "ann":
+		o.FilterAnnotation(key, re)
+	}
+}
+
+// filterPass says, for every node, whether it satisfies the filter as the property words it: the manifest's artifact
+// type is its artifactType, else its config media type; the annotation is the manifest's own. Only the regular
+// expression match itself is delegated to Go's regexp.
+func filterPass(g *vh.Graph, f string) []bool {
+	mode, key, re := parseFilter(f)
+	out := make([]bool, g.N)
+	for k := 1; k <= g.N; k++ {
+		ns := g.Nodes[k]
+		switch mode {
+		case "":
+			out[k-1] = true
+		case "at":
+			at := ""
+			switch ns.Kind {
+			case "manifest":
+				at = ns.Art
+				if at == "" {
+					for _, e := range ns.Edges {
+						if e.Role == "config" {
+							at = g.Descs[e.To].MediaType
+						}
+					}
+				}
+			case "index", "artifact":
+				at = ns.Art
+			}
+			out[k-1] = vh.IsManifestKind(ns.Kind) && re.MatchString(at)
+		case "ann":
+			v, ok := ns.Ann[key]
+			out[k-1] = vh.IsManifestKind(ns.Kind) && ok && (re == nil || re.MatchString(v))
+		}
+	}
+	return out
 }
 
 type dstStore interface {
